@@ -271,8 +271,10 @@ void harness(void)
     vp_std_present[i] = vp_bool();
   }
 #if VP_LOWFD && defined(VP_KF_REGION)
-  /* known-finding run: restricted to the region "some standard descriptor is closed" */
-  VP_ASSUME(!vp_fd_open[0] || !vp_fd_open[1] || !vp_fd_open[2]);
+  /* known-finding run: restricted to the region "some standard descriptor is closed, or a
+   * handle redirect names descriptor 1 or 2" (the second half is assumed where handles are
+   * chosen: outside the region handles are >= 3) */
+  bool kf_closed = !vp_fd_open[0] || !vp_fd_open[1] || !vp_fd_open[2];
 #endif
   /* the caller's two descriptors (used for HANDLE and FILE redirects) */
 #if VP_USERFD_SYM
@@ -321,6 +323,12 @@ void harness(void)
     if (t == REPROC_REDIRECT_HANDLE) {
       int h = vp_choice(0, 3);
       rr[s]->handle = h == 0 ? 1 : h == 1 ? 2 : g_user_fd[h - 2];
+#if !VP_LOWFD
+      /* a handle that is itself one of the parent's descriptors 1/2 belongs to the region of
+       * known finding D10 (sources at 0-2 are overwritten by the child's dup2 sequence) and is
+       * explored by the known-finding job only */
+      VP_ASSUME(h >= 2);
+#endif
       VP_ASSUME(vp_fd_open[rr[s]->handle]);
     } else if (t == REPROC_REDIRECT_FILE) {
       rr[s]->file = (FILE *) &vp_user_files[vp_choice(0, 1)];
@@ -328,6 +336,11 @@ void harness(void)
       rr[s]->path = path_obj[s];
     }
   }
+#if VP_LOWFD && defined(VP_KF_REGION)
+  VP_ASSUME(kf_closed || (o.redirect.in.type == REPROC_REDIRECT_HANDLE && o.redirect.in.handle < 3) ||
+            (o.redirect.out.type == REPROC_REDIRECT_HANDLE && o.redirect.out.handle < 3) ||
+            (o.redirect.err.type == REPROC_REDIRECT_HANDLE && o.redirect.err.handle < 3));
+#endif
   int sh = vp_choice(0, 4);
   o.redirect.parent = sh == 1;
   o.redirect.discard = sh == 2;
